@@ -195,6 +195,17 @@ func VrfC05Schedule() {
 	h.lastMode = make([]bool, n)
 	h.refused = make([]bool, n)
 	h.overRec = make([]bool, n)
+	// arbitrary earlier history, continued: the shared state may already hold the
+	// pin (tracked and pinned long ago, allocated here) whatever the daemon holds
+	// now - a daemon loses pins to garbage collection or a manual "pin rm"
+	if vrf_param("prestate") == 1 {
+		for i := 0; i < n; i++ {
+			if vrf_choice("in_state_before", 2) == 1 {
+				h.ps.set(h.mkPin(i, true, false, false))
+				h.last[i], h.lastMode[i] = vrfInsTrackLocal, false
+			}
+		}
+	}
 	h.nested = vrf_param("nested")
 	h.d.onCall = h.onCall
 	h.spt = vrfNewTracker(h.ps, h.d, vrf_param("queue"))
